@@ -67,19 +67,23 @@ def merge (base : Ref) (rpath : Bytes) : Bytes :=
     let r := base.path.reverse.dropWhile (· != slash)
     r.reverse ++ rpath
 
-/-- 5.2.2 (strict) -/
-def resolve (base r : Ref) : Ref :=
+/-- 5.2.2 (strict), with the dot-segment step a parameter (`resolve` below puts in 5.2.4 itself; C12 also uses
+    "5.2.4 of the slash-collapsed path", the normal form C11 fixes) -/
+def resolveWith (rds : Bytes → Bytes) (base r : Ref) : Ref :=
   if r.scheme.isSome then
-    { scheme := r.scheme, authority := r.authority, path := removeDotSegments r.path, query := r.query, fragment := r.fragment }
+    { scheme := r.scheme, authority := r.authority, path := rds r.path, query := r.query, fragment := r.fragment }
   else if r.authority.isSome then
-    { scheme := base.scheme, authority := r.authority, path := removeDotSegments r.path, query := r.query, fragment := r.fragment }
+    { scheme := base.scheme, authority := r.authority, path := rds r.path, query := r.query, fragment := r.fragment }
   else if r.path.isEmpty then
     { scheme := base.scheme, authority := base.authority, path := base.path,
       query := if r.query.isSome then r.query else base.query, fragment := r.fragment }
   else if startsWith r.path [slash] then
-    { scheme := base.scheme, authority := base.authority, path := removeDotSegments r.path, query := r.query, fragment := r.fragment }
+    { scheme := base.scheme, authority := base.authority, path := rds r.path, query := r.query, fragment := r.fragment }
   else
-    { scheme := base.scheme, authority := base.authority, path := removeDotSegments (merge base r.path),
+    { scheme := base.scheme, authority := base.authority, path := rds (merge base r.path),
       query := r.query, fragment := r.fragment }
+
+/-- 5.2.2 (strict) -/
+def resolve (base r : Ref) : Ref := resolveWith removeDotSegments base r
 
 end Httoop.Rfc3986
